@@ -64,10 +64,31 @@ ASSUMED = {
 }
 
 
+# R13.9: lists that are ended by a marker element (not by NULL): record -> (kind field, enumerator of the marker, link field).
+# The marker's link is NULL, so the link of an element is a valid cursor only if the element is known not to be the marker.
+END_MARKER = {'Token': ('kind', 'TK_EOF', 'next')}
+# predicates p(tok, str) that are true only if the token's text has the length of str (shape checked by r139_pre): with a
+# non-empty string the token is not the marker, whose length is 0 (checked by r139_pre)
+LEN_PREDICATES = {'equal': (0, 1)}
+FIELD_RULE = {'Token.next': 'R13.9'}
+
+
 def _world(P):
     W = L.World(P)
     W.nullable_fields = dict(NULLABLE_FIELDS)
     W.nullable_globals = dict(NULLABLE_GLOBALS)
+    for rec, (kf, marker, link) in END_MARKER.items():
+        en = None
+        for u in W.units.values():
+            en = en or u.enum_of.get(marker)
+        uni = W.enum_universe.get(en) if en else None
+        if not uni or marker not in uni:
+            raise AnalysisBroken('the end marker %s of %s lists vanished' % (marker, rec))
+        W.nullable_fields[(rec, link)] = {'implied': (kf, frozenset(uni - frozenset([marker]))),
+                                          'why': 'the %s element is the last one of every %s list, its %s is NULL' % (marker, rec, link)}
+    W.end_marker = dict(END_MARKER)
+    W.len_predicates = dict(LEN_PREDICATES)
+    W.nonempty_strs = W.nonempty_string_params()
     for (un, fn, path), why in ASSUMED.items():
         W.assumed_nonnull.setdefault((un, fn), set()).add(path)
     return W
@@ -109,6 +130,8 @@ def run(P, rep, tier):
     r135(W, rep)
     r136(W, engs, rep)
     r137(P, rep)
+    r136_lines(P, rep)
+    r138(W, engs, rep)
 
 
 # --------------------------------------------------------------------------------------------
@@ -190,6 +213,9 @@ def _why(s):
 def r131(W, engs, rep):
     rep.rule('R13.1', 'every dereference of a value from a nullable source (frozen field table, parameter that can receive NULL, function that can return NULL, '
                       'global that is NULL in some state) is dominated by a non-null fact for the same access path', floor=60)
+    rep.rule('R13.9', 'a token cursor never runs past the end-of-input token: the successor of a token (Token.next) is dereferenced only where the token is known not to be the TK_EOF '
+                      'marker (a test of its kind, a successful comparison of its text with a non-empty string, a fact established by every caller or by a callee that diagnoses '
+                      'the marker), or after a null test of the successor; the successor of TK_EOF is NULL', floor=40)
     rep.rule('R13.6', 'the token argument of every error_tok/warn_tok call is never a value that may be NULL (the diagnostic can be located)', floor=60)
     seen_src = {}
     obs = {}
@@ -197,7 +223,7 @@ def r131(W, engs, rep):
         for d in e.derefs.values():
             name = _src_name(e, d)
             how = d['how']
-            rule = 'R13.1'
+            rule = FIELD_RULE.get(name, 'R13.1') if d['src'] and d['src'][0] == 'field' else 'R13.1'
             if how in ('arg1 of error_tok()', 'arg1 of warn_tok()'):
                 continue   # judged by R13.6 per call site
             path = e.show(d['path']) if d['path'] else name
@@ -1151,3 +1177,165 @@ def r137(P, rep):
                 rep.ob('R13.7', 'main.c:%s:%s-is-failure' % (f, cname), bad is None, what, where=where, facts={'witness_status': bad[0] if bad else None})
         except _Undecidable as e:
             rep.undecided('R13.7', 'main.c:%s:status-test' % f, 'the code after wait() cannot be evaluated concretely (%s)' % e, where=where)
+
+
+# --------------------------------------------------------------------------------------------
+class _RuleProxy:
+    """lets a rule function of another property report its obligations under a rule id of this property"""
+
+    def __init__(self, rep, rule, prefix):
+        self._rep, self._rule, self._prefix = rep, rule, prefix
+        self.count = 0
+
+    def rule(self, rule, doc, floor=1):
+        pass
+
+    def saw(self, *a, **k):
+        pass
+
+    def ob(self, rule, key, ok, what, where=None, facts=None):
+        self.count += 1
+        return self._rep.ob(self._rule, self._prefix + key, ok, what, where=where, facts=facts)
+
+    def undecided(self, rule, key, why, where=None):
+        self.count += 1
+        return self._rep.undecided(self._rule, self._prefix + key, why, where=where)
+
+    def __getattr__(self, name):
+        return getattr(self._rep, name)
+
+
+def r136_lines(P, rep):
+    """the line a diagnostic names exists: every token of a file, the end-of-input token included, is stamped with the
+    physical line count (>= 1).  Decided by the byte-loop analysis of C18 (R18.3), reported here under R13.6L."""
+    rep.rule('R13.6L', 'the line number a located diagnostic prints exists in the input: add_line_numbers starts at 1, grows by one per newline, visits every byte up to and '
+                       'including the terminating NUL (where the end-of-input token lives) and stamps the token that starts at the visited byte; tokenize() applies it to the whole '
+                       'list after the end-of-input token was appended (no token keeps the calloc value 0)', floor=10)
+    from . import c18
+    from ..interp import Unsupported
+    u = P.unit('tokenize.c')
+    for f in ('add_line_numbers', 'tokenize', 'error_at'):
+        if f not in u.functions:
+            rep.undecided('R13.6L', 'tokenize.c:%s' % f, 'anchor function %s() vanished' % f)
+            return
+    px = _RuleProxy(rep, 'R13.6L', '')
+    try:
+        c18.r183(P, u, px)
+    except (AnalysisBroken, Unsupported) as e:
+        rep.undecided('R13.6L', 'tokenize.c:add_line_numbers:engine', 'the line-count analysis cannot interpret a construct it needs: %s' % e)
+
+
+# --------------------------------------------------------------------------------------------
+def _member_base_kinds(W, engs):
+    """type kinds the parser accepts as the base of a member access: in the function(s) that build member nodes (they store
+    Node.member), the kinds that do not reach the rejecting diagnostic on the base's type.  -> (kinds, [constructor functions])"""
+    uni = W.enum_universe.get('TypeKind')
+    if not uni:
+        raise AnalysisBroken('enum TypeKind vanished')
+    rejected = None
+    ctors = []
+    for (un, f), e in sorted(engs.items()):
+        if un == 'codegen.c' or not any(rec == 'Node' and fld == 'member' for rec, fld, vs, node in e.stores):
+            continue
+        ctors.append('%s:%s' % (un, f))
+        sites = {}
+        for node, c, S, vals in e.calls:
+            if c != 'error_tok' or not vals or vals[0].path is None or not vals[0].path.endswith('->tok'):
+                continue
+            # a diagnostic located at the base expression itself (first argument is <Node parameter>->tok) ...
+            root = vals[0].path[:-len('->tok')]
+            if not ('@' in root and root.split('@', 1)[1] in e.param_idx and L.rec_of(e.roots.get(root)) == 'Node'):
+                continue
+            fct = S.vs.get(root + '->ty->kind')
+            sites.setdefault(node.id, []).append(fct)
+        for fcts in sites.values():
+            # ... that is reached only for some type kinds of the base
+            if all(f is not None and f[0] == 'in' and f[1] < uni for f in fcts):
+                for f in fcts:
+                    rejected = set(f[1]) if rejected is None else (rejected | set(f[1]))
+    if rejected is None:
+        return None, ctors
+    return frozenset(uni - rejected), ctors
+
+
+def r138(W, engs, rep):
+    """an expression the parser accepts as the base of `.member` has an address in the code generator"""
+    rep.rule('R13.8', 'every expression the parser accepts as the base of a member access (its type kind passes the check of the member-node constructor) is given an address by '
+                      'gen_addr: where gen_addr handles a node kind only under a condition, the rejecting branch ("not an lvalue") excludes every accepted type kind, directly or '
+                      'through a node field that the parser sets for every accepted type kind (otherwise a valid program is rejected)', floor=3)
+    A, ctors = _member_base_kinds(W, engs)
+    if not A:
+        rep.undecided('R13.8', 'parse.c:member-access:accepted-kinds', 'the type kinds accepted as the base of a member access are not recognised (constructors of member nodes: %s)' % (ctors or 'none'))
+        return
+    e = engs.get(('codegen.c', 'gen_addr'))
+    if e is None or not e.params:
+        raise AnalysisBroken('codegen.c:gen_addr vanished')
+    p0 = '%s@%s' % (e.params[0].name, e.params[0].id)
+    nptr = set(fn for u in W.units.values() for (fn, ft, bf) in u.records.get('Node', []) if L.is_ptr_type(ft))
+    inv_cache = {}
+
+    def parser_sets(field, kinds):
+        """[(function, accepted type kinds for which a returned node has no `field`)] over the parser functions that store Node.field"""
+        if field in inv_cache:
+            return inv_cache[field]
+        out, n = [], 0
+        for (un, g), eg in sorted(engs.items()):
+            if un == 'codegen.c' or not any(rec == 'Node' and fld == field for rec, fld, vs, node in eg.stores):
+                continue
+            n += 1
+            ex = L.Engine(W, W.units[un], g, hooks={'keep_exit_states': True}).run()
+            miss = set()
+            for path, S in ex.exit_vals:
+                if path is None or L.rec_of(ex.roots.get(L._root(path))) != 'Node':
+                    continue
+                nk = S.vs.get(path + '->kind')
+                if nk and nk[0] == 'in' and not (set(nk[1]) & kinds):
+                    continue
+                tk = S.vs.get(path + '->ty->kind')
+                poss = set(A) if tk is None else (set(A) & set(tk[1]) if tk[0] == 'in' else set(A) - set(tk[1]))
+                st = S.nul.get(path + '->' + field)
+                if poss and (st is None or st[0] == 'NULL'):
+                    miss |= poss
+            out.append(('%s:%s' % (un, g), sorted(miss), eg.fd.line))
+        inv_cache[field] = (out, n)
+        return inv_cache[field]
+
+    judged = 0
+    for node, c, S, vals in e.calls:
+        if c != 'error_tok':
+            continue
+        kf = S.vs.get(p0 + '->kind')
+        if not kf or kf[0] != 'in' or len(kf[1]) > 4 or not all(isinstance(x, str) for x in kf[1]):
+            continue        # the state of "no handler for this kind": which kinds have an address at all is R04.4
+        kinds = set(kf[1])
+        kname = ','.join(sorted(kinds))
+        where = 'codegen.c:%d' % node.line
+        tk = S.vs.get(p0 + '->ty->kind')
+        guards = sorted(p[len(p0) + 2:] for p, v in S.nul.items() if p.startswith(p0 + '->') and v[0] == 'NULL' and p[len(p0) + 2:] in nptr)
+        off = None
+        if tk is not None:
+            off = sorted((set(A) & set(tk[1])) if tk[0] == 'in' else (set(A) - set(tk[1])))
+        if off is not None and (not off or not guards):
+            judged += 1
+            rep.ob('R13.8', 'codegen.c:gen_addr:%s:accepted-base-has-address%s' % (kname, ('<-' + ','.join(off)) if off else ''), not off,
+                   'gen_addr() sends a %s node whose type is %s to "not an lvalue", but the parser accepts an expression of that type as the base of a member access '
+                   '(accepted kinds: %s) and its value lives in memory: a valid program such as `(a = b).m` / `(c ? a : b).m` is rejected'
+                   % (kname, ' or '.join(off), ','.join(sorted(A))), where=where, facts={'accepted_base_kinds': sorted(A), 'rejected_under': sorted(off)})
+            continue
+        if not guards:
+            rep.undecided('R13.8', 'codegen.c:gen_addr:%s:reject-condition' % kname, 'the condition under which gen_addr() rejects a %s node is neither a test of its type kind nor a null test of a node field' % kname, where=where)
+            continue
+        for fld in guards:
+            res, n = parser_sets(fld, kinds)
+            judged += 1
+            if n == 0:
+                rep.undecided('R13.8', 'codegen.c:gen_addr:%s:%s-set-by-parser' % (kname, fld), 'gen_addr() rejects a %s node without %s, but no parser function that sets Node.%s was found' % (kname, fld, fld), where=where)
+                continue
+            rep.ob('R13.8', 'codegen.c:gen_addr:%s:accepted-base-has-address(via-%s)' % (kname, fld), True, '', where=where)
+            for g, miss, line in res:
+                rep.ob('R13.8', '%s:%s-for-accepted-bases%s' % (g, fld, ('<-' + ','.join(miss)) if miss else ''), not miss,
+                       '%s() returns a %s node of type %s without setting %s, and gen_addr() answers a member access on such a node with "not an lvalue" (the parser accepts '
+                       'bases of kinds %s): a valid program such as `f().m` is rejected' % (g.split(':')[1], kname, ' or '.join(miss), fld, ','.join(sorted(A))),
+                       where='%s:%d' % (g.split(':')[0], line), facts={'accepted_base_kinds': sorted(A)})
+    if judged == 0:
+        rep.undecided('R13.8', 'codegen.c:gen_addr:conditional-arms', 'no conditionally handled node kind of gen_addr() reaches its diagnostic (shape not recognised)')
